@@ -481,3 +481,9 @@ Fixpoint req_deadline (timeout start : N) (arrivals : list N) : N :=
            | None => start + timeout
            end
   end.
+
+(* the demultiplexer with single-response requests only (check_stream unused) *)
+Definition c15_demux (idle_zero : bool) (evs : list sevent) : outcome sstate :=
+  s_run (fun _ _ => (false, 0, false)) idle_zero evs.
+Definition c15_pending (c : N) (s : sstate) : bool :=
+  existsb (fun e => e_caller e =? c) (flatten_opt (q_vec (st_q s))).
